@@ -84,6 +84,8 @@ static ALLOC: Counting = Counting;
 static RECV_WORST: AtomicUsize = AtomicUsize::new(0);
 static DEC_WORST: AtomicUsize = AtomicUsize::new(0);
 static DEC_WORST_ABS: AtomicUsize = AtomicUsize::new(0);
+/// nesting depth of the well-formed value the current decode case was built from (0 = not a depth case)
+static CASE_DEPTH: AtomicUsize = AtomicUsize::new(0);
 
 #[derive(Clone, Copy, Debug, Default)]
 struct Meter {
@@ -442,6 +444,9 @@ fn typed_decoders(sig: &str) -> Vec<(&'static str, fn(ByteOrder, &[u8]) -> bool)
     fn cow_u64(bo: ByteOrder, buf: &[u8]) -> bool { typed_ok::<Cow<[u64]>>(bo, buf) }
     fn vec_str(bo: ByteOrder, buf: &[u8]) -> bool { typed_ok::<Vec<&str>>(bo, buf) }
     fn variant(bo: ByteOrder, buf: &[u8]) -> bool { typed_ok::<rustbus::wire::unmarshal::traits::Variant>(bo, buf) }
+    fn vec4_variant(bo: ByteOrder, buf: &[u8]) -> bool {
+        typed_ok::<Vec<Vec<Vec<Vec<rustbus::wire::unmarshal::traits::Variant>>>>>(bo, buf)
+    }
     fn map_sv(bo: ByteOrder, buf: &[u8]) -> bool {
         typed_ok::<HashMap<String, rustbus::wire::unmarshal::traits::Variant>>(bo, buf)
     }
@@ -454,6 +459,7 @@ fn typed_decoders(sig: &str) -> Vec<(&'static str, fn(ByteOrder, &[u8]) -> bool)
         "(yay)" => vec![("tuple_y_ay", f::<(u8, Vec<u8>)> as fn(ByteOrder, &[u8]) -> bool)],
         "aay" => vec![("vec_vec_u8", f::<Vec<Vec<u8>>> as fn(ByteOrder, &[u8]) -> bool)],
         "v" => vec![("variant", variant as fn(ByteOrder, &[u8]) -> bool)],
+        "aaaav" => vec![("vec4_variant", vec4_variant as fn(ByteOrder, &[u8]) -> bool)],
         _ => vec![],
     }
 }
@@ -481,6 +487,16 @@ fn dec_case(out0: &mut Out, bo: ByteOrder, sig: &str, buf: &[u8], tag: &str) {
     let out = &mut sink;
     let bound = ALLOC_PER_BYTE * (buf.len() + sig.len()) + DEC_SLACK;
     let ty = signature::Type::parse_description(sig).ok().and_then(|mut v| if v.len() == 1 { Some(v.remove(0)) } else { None });
+    let depth = CASE_DEPTH.load(Relaxed);
+    // the engine built a well-formed value nested `depth` levels deep: accepted iff depth <= 64
+    let depth_check = |out: &mut Sink, req: &str, accepted: bool, what: &str| {
+        if depth > 64 && accepted {
+            out.out.violation(req, &format!("{} accepted a value nested {} levels deep", what, depth));
+        }
+        if depth != 0 && depth <= 64 && !accepted {
+            out.out.violation(req, &format!("{} rejected a well-formed value nested only {} levels deep", what, depth));
+        }
+    };
     let check = |out: &mut Sink, req: &str, m: Meter, what: &str| {
         DEC_WORST.fetch_max(m.peak_extra * 1000 / (buf.len() + sig.len()).max(1), Relaxed);
         DEC_WORST_ABS.fetch_max(m.peak_extra, Relaxed);
@@ -497,10 +513,13 @@ fn dec_case(out0: &mut Out, bo: ByteOrder, sig: &str, buf: &[u8], tag: &str) {
             Some(t) => validate_marshalled(bo, 0, buf, t).map_err(|_| ()),
             None => Err(()),
         }));
-        match r {
+        match &r {
             Ok(Ok(n)) => { out.case(&req, &format!("ok {}", n)); out.out.hit(&format!("dec.{}.validate.ok", tag)); }
             Ok(Err(())) => { out.case(&req, "reject"); out.out.hit(&format!("dec.{}.validate.reject", tag)); }
             Err(p) => { out.out.violation(&req, &format!("panic: {}", p)); out.case(&req, "panic"); }
+        }
+        if let Ok(x) = &r {
+            depth_check(out, &req, x.is_ok(), "validate_marshalled");
         }
         check(out, &req, m, "validate_marshalled");
     }
@@ -514,17 +533,20 @@ fn dec_case(out0: &mut Out, bo: ByteOrder, sig: &str, buf: &[u8], tag: &str) {
             }
             None => Err(()),
         }));
-        match r {
+        match &r {
             Ok(Ok(nodes)) => {
                 out.case(&req, "ok");
                 out.out.hit(&format!("dec.{}.param.ok", tag));
                 // Theorem 6 on the implementation: at most 65 nodes per byte
-                if nodes > 65 * buf.len() {
+                if *nodes > 65 * buf.len() {
                     out.out.violation(&req, &format!("{} nodes decoded from {} bytes", nodes, buf.len()));
                 }
             }
             Ok(Err(())) => { out.case(&req, "reject"); out.out.hit(&format!("dec.{}.param.reject", tag)); }
             Err(p) => { out.out.violation(&req, &format!("panic: {}", p)); out.case(&req, "panic"); }
+        }
+        if let Ok(x) = &r {
+            depth_check(out, &req, x.is_ok(), "the Param unmarshaller");
         }
         check(out, &req, m, "unmarshal_with_sig");
     }
@@ -533,10 +555,13 @@ fn dec_case(out0: &mut Out, bo: ByteOrder, sig: &str, buf: &[u8], tag: &str) {
         for (name, f) in typed_decoders(sig) {
             let req = format!("c18.dec typed:{} {} {} {}", name, bo_name(bo), sig, hx);
             let (r, m) = meter(|| guard(|| f(bo, buf)));
-            match r {
+            match &r {
                 Ok(true) => { out.case(&req, "ok"); out.out.hit(&format!("dec.{}.{}.ok", tag, name)); }
                 Ok(false) => { out.case(&req, "reject"); out.out.hit(&format!("dec.{}.{}.reject", tag, name)); }
                 Err(p) => { out.out.violation(&req, &format!("panic: {}", p)); out.case(&req, "panic"); }
+            }
+            if let Ok(x) = &r {
+                depth_check(out, &req, *x, name);
             }
             check(out, &req, m, name);
         }
@@ -726,8 +751,10 @@ fn run_dec_depth(out: &mut Out, cfg: &Cfg) {
     let depths: &[usize] = if cfg.thorough { &[1, 2, 3, 31, 32, 33, 62, 63, 64, 65, 66, 67, 100, 128, 1000, 5000] } else { &[1, 2, 63, 64, 65, 66, 1000] };
     for bo in ORDERS {
         for &d in depths {
+            CASE_DEPTH.store(d, Relaxed);
             dec_case(out, bo, "v", &bomb(d), &format!("bomb.{}", pos_name(d, 64)));
         }
+        CASE_DEPTH.store(0, Relaxed);
         // the signature's own nesting: 32 arrays / 32 structs are the maximum; deeper signatures are refused
         for n in [1usize, 31, 32, 33, 40] {
             let sig = format!("{}y", "a".repeat(n));
@@ -737,12 +764,15 @@ fn run_dec_depth(out: &mut Out, cfg: &Cfg) {
                 d.extend_from_slice(&data);
                 data = d;
             }
+            // beyond 32 it is the signature's own limit that refuses (not a depth-64 case)
+            CASE_DEPTH.store(if n <= 32 { n } else { 0 }, Relaxed);
             dec_case(out, bo, &sig, &data, &format!("sig_arrays.{}", pos_name(n, 32)));
             let sig = format!("{}y{}", "(".repeat(n), ")".repeat(n));
             dec_case(out, bo, &sig, &[42], &format!("sig_structs.{}", pos_name(n, 32)));
+            CASE_DEPTH.store(0, Relaxed);
         }
         // arrays in the signature, then variants: 31 + j levels
-        for (na, j) in [(31usize, 32usize), (31, 33), (31, 34), (32, 31), (32, 32), (32, 33), (1, 63), (1, 64)] {
+        for (na, j) in [(31usize, 32usize), (31, 33), (31, 34), (32, 31), (32, 32), (32, 33), (1, 63), (1, 64), (4, 59), (4, 60), (4, 61)] {
             let sig = format!("{}v", "a".repeat(na));
             let mut data = bomb(j);
             for _ in 0..na {
@@ -750,7 +780,21 @@ fn run_dec_depth(out: &mut Out, cfg: &Cfg) {
                 d.extend_from_slice(&data);
                 data = d;
             }
+            CASE_DEPTH.store(na + j, Relaxed);
             dec_case(out, bo, &sig, &data, &format!("arrays_then_bomb.{}", pos_name(na + j, 64)));
+            CASE_DEPTH.store(0, Relaxed);
+        }
+        // a dict (two levels) whose only value is a variant bomb: 2 + j levels, through the typed HashMap as well
+        for j in [61usize, 62, 63] {
+            let b = bomb(j);
+            let mut data = u32b(bo, (6 + b.len()) as u32).to_vec();
+            data.extend_from_slice(&[0; 4]);
+            data.extend_from_slice(&u32b(bo, 1));
+            data.extend_from_slice(&[b'k', 0]);
+            data.extend_from_slice(&b);
+            CASE_DEPTH.store(2 + j, Relaxed);
+            dec_case(out, bo, "a{sv}", &data, &format!("dict_then_bomb.{}", pos_name(2 + j, 64)));
+            CASE_DEPTH.store(0, Relaxed);
         }
         // 32 arrays of 32 structs (64 levels) holding a byte: accepted; holding a variant: 65 levels
         for (inner, payload, depth) in [("y", vec![42u8], 64usize), ("v", vec![1, b'y', 0, 42], 65)] {
@@ -763,7 +807,9 @@ fn run_dec_depth(out: &mut Out, cfg: &Cfg) {
                 d.extend_from_slice(&data);
                 data = d;
             }
+            CASE_DEPTH.store(depth, Relaxed);
             dec_case(out, bo, &sig, &data, &format!("sig64.{}", pos_name(depth, 64)));
+            CASE_DEPTH.store(0, Relaxed);
         }
     }
 }
@@ -803,7 +849,9 @@ fn run_dec_deep(out: &mut Out, cfg: &Cfg) {
         Err(_) => out.violation(&req, "the decoder thread died"),
     }
     // the model sees the same bytes
+    CASE_DEPTH.store(depth, Relaxed);
     dec_case(out, ByteOrder::LittleEndian, "v", &data, "bomb.deep");
+    CASE_DEPTH.store(0, Relaxed);
 }
 
 // ---------------------------------------------------------------------------------------------------------
@@ -1185,7 +1233,7 @@ pub fn run(cfg: &Cfg) {
          DECODE: length words 3, 8, 2^26-4, 2^26, 2^26+1, 2^26+4, 2^31, 2^32-1 at top level (ay, at, as, a{sv}, a{yy}), in a \
          struct, in a variant, as inner and as outer array, followed by 0/3/8/100 bytes, through validate_marshalled, the \
          Param unmarshaller and every typed decoder of that signature; variant bombs of depth 1,2,63..66,1000, signature \
-         nesting 31/32/33 arrays and structs, arrays-then-bomb totals 63..65, the 64-level signature with and without a \
+         nesting 31/32/33 arrays and structs, arrays-then-bomb totals 63..65 (incl. the typed Vec<Vec<Vec<Vec<Variant>>>>), dict-then-bomb 63..65 (typed HashMap<String, Variant>), the 64-level signature with and without a \
          variant inside; a 10^5 deep bomb on a 2 MiB stack; completely present ay / at arrays of 2^26-1, 2^26, 2^26+1 bytes (2^23-1..2^23+1 u64) through validate and the typed decoders, `as` with an element region of 2^26 / 2^26+4 through all decoders; direct: peak live allocation <= 176*(input+signature)+64KiB (a Param is 80 bytes, Vec growth doubles), <= 65 nodes \
          per input byte, no panic. \
          SEND: &[u8] of 2^26-1, 2^26, 2^26+1 bytes on its own / in a struct / in a variant / as dict value (dict region \
